@@ -25,6 +25,8 @@ CLAIMED = {
              note='Trusted: Formatter sink shim, {:04x} rendering, char::is_control spec. Not covered: numbers (serde_json Display), lists/objects rendering, JSON conversion, re-parse by the pest grammar.'),
  'C17': dict(engine='verus', tech=TECH_V, text='Kernel contract only: export_sdl::escape_string(s) decodes back to s for all strings (unbounded loop invariant).',
              note='Trusted: String fmt::Write spec. Not covered: export_type/export_fields (writeln! over the registry), block-string descriptions.'),
+ 'C19': dict(engine='verus', tech=TECH_V + ' (await-erased, payloads abstracted to trace events); bounded mode-matrix stand-in (labelled bounded, never counted)', text='Kernel contract only: the gating control flow of QueryRoot::resolve_field is proved, for every combination of the two introspection modes, field name and federation flags, to run exactly the payload the property allows (introspection objects only when neither mode is Disabled; Ok(None) -- no user, entity or service payload -- when either mode is IntrospectionOnly). One open known finding (_service SDL with introspection disabled) is carved out and re-confirmed on every run.',
+             note='Trusted: await-erasure; every branch payload is one opaque trace event (R-payload); String equality axiom. Not covered: __typename (Fields::add_set), execute_once mutation substitution, dynamic collect_fields, subscriptions -- only sampled by the bounded matrix (static schema).'),
  'C20': dict(engine='verus', tech=TECH_V, text='Kernel contract only: CacheControl::merge equals the restrictiveness-order combination for all i32/bool pairs; commutativity, associativity, idempotence proved as lemmas.',
              note='Trusted: nothing beyond Verus/Z3 and the extraction. Not covered: that the visitor driver visits every selection; derive-emitted cache hints.'),
  'C21': dict(engine='verus', tech=TECH_V + '; bounded logged-text stand-in (labelled bounded, never counted)', text='Kernel contract only: Registry::stringify_input_value is proved to print exactly "<secret>" for a secret input value (nothing of the value), the plain rendering for non-secret leaves, and to be append-only. That nested values are printed with the meta of their own field, and the selection-set walk, are only sampled by a bounded enumeration of operations with a secret marker.',
